@@ -329,3 +329,58 @@ def rdp_steps(ctx):
     for m in mism[:3]:
         print("GROWTH-MISMATCH module=RdpSteps %s" % m)
     return mism
+
+
+def _mk_proj(loc):
+    if "stack" in loc and "knees" in loc:
+        return {"stack": [[int(a), int(b)] for a, b in loc["stack"]], "knees": [int(k) for k in loc["knees"]]}
+    return None
+
+
+def _mk_steps_record(item):
+    import random
+    import importlib
+    from harness import curves, monitor
+    cid, seed = item
+    rng = random.Random(seed)
+    det = rng.choice(["curvature", "dfdt", "menger", "lmethod", "kneedle"])
+    mod = importlib.import_module("kneeliverse." + det)
+    P = curves.random_curve(rng, 6, 40)
+    n = len(P)
+    t1 = rng.choice([0.0, 0.001, 0.01, 0.05])
+    t2 = rng.choice([4, 5, 6]) if det in ("menger", "lmethod") else rng.choice([3, 4, 5])
+    out, val, cnt = monitor.call(mod.multi_knee, (P, t1, t2), {}, budget=monitor.quad(n, 200), wall=60, per={"multi_knee": 8 * n + 64},
+                                 snap={"multi_knee": _mk_proj})
+    snaps = list(monitor._state["snaps"])
+    if out != "returned":
+        return None
+    return {"id": cid, "n": n, "t2": t2, "events": snaps, "final": [int(v) for v in np.asarray(val).tolist()],
+            "_backedges": cnt.get("multi_knee", 0), "_det": det}
+
+
+def mk_steps(ctx):
+    """Trace_MultiKneeSteps.tla: action-level trace validation of multi_knee.multi_knee against MultiKnee.tla's own actions."""
+    import json
+    import os
+    items = [("ms%d" % k, ctx.seed * 6007 + k) for k in range(150 if ctx.quick else 1500)]
+    rec = [r for r in par.pmap(_mk_steps_record, items) if r is not None]
+    anchored = [r for r in rec if len(r["events"]) == r["_backedges"]]
+    info = {"calls_recorded": len(rec), "calls_with_snapshots": len(anchored), "loop_iterations_validated": sum(len(r["events"]) + 1 for r in anchored),
+            "detectors": sorted(set(r["_det"] for r in rec)),
+            "what": "every work-loop iteration of multi_knee.multi_knee (local stack and knee list read from the running frame at each "
+                    "back-edge) must be a PopSmall / PopStraight / PopDetect step of spec/MultiKnee.tla, the last one must empty the stack "
+                    "and Finish must yield the returned array; TLC infers the gate values and the detector's answers; note only"}
+    if len(anchored) < len(rec) // 2:
+        info["skipped"] = "the locals `stack` / `knees` were not found in multi_knee's frame (the loop has been rewritten): not applicable"
+        ctx.extra.setdefault("growth", {})["MultiKneeSteps"] = info
+        return []
+    good = json.load(open(os.path.join(os.path.dirname(os.path.abspath(__file__)), "static_mksteps.json")))
+    badstack = dict(good, events=[dict(good["events"][0], stack=[[0, 12], [11, 12]])] + good["events"][1:])
+    rej = ctx.trace("Trace_MultiKneeSteps", [{k: r[k] for k in ("id", "n", "t2", "events", "final")} for r in anchored], chunk=300,
+                    selftest=[(good, "ok"), (dict(good, final=[2, 3, 4, 5, 6, 8, 9]), "no-machine-step"), (badstack, "no-machine-step")])
+    mism = [{"case": cid, "clause": vs[0][0], "detail": [str(v)[:100] for v in vs[0][1:4]]} for cid, vs in rej.items()]
+    info.update(mismatches=len(mism), first_mismatches=mism[:3])
+    ctx.extra.setdefault("growth", {})["MultiKneeSteps"] = info
+    for m in mism[:3]:
+        print("GROWTH-MISMATCH module=MultiKneeSteps %s" % m)
+    return mism
